@@ -516,4 +516,65 @@ example :
     UNodup (applyTx s t).U ∧ Applied (applyTx s t) t :=
   ⟨by unfold UNodup; decide, applied_of_applyTx _ 0 _ (by decide) (by decide)⟩
 
+-- ================================================================ the pool invariant
+
+/-- fees of the pending transactions: not in the table until the transaction is confirmed in a block -/
+def poolFees (e : Env) (pool : List Nat) : Int := (pool.map (fun i => feeOf (e.tx i).outs)).sum
+
+theorem poolFees_append (e : Env) (a b : List Nat) : poolFees e (a ++ b) = poolFees e a + poolFees e b := by
+  unfold poolFees; simp [List.sum_append]
+
+/-- **the pool invariant**: one row per key; pool ids pairwise distinct; no pending coinbase; every token input of a
+pending transaction is spent (absent from the table); and conservation `Σ U + pending fees = total` -/
+structure PoolInv (e : Env) (s : St) : Prop where
+  nodupU : UNodup s.U
+  nodupPool : s.pool.Nodup
+  nonCoinbase : ∀ i ∈ s.pool, (e.tx i).coinbase = false
+  insSpent : ∀ i ∈ s.pool, ∀ r ∈ (e.tx i).ins, lookup s.U (r.tx, r.off) = none
+  conservation : sumU s.U + poolFees e s.pool = s.total
+
+/-- **`doTx` keeps the pool invariant**, admitted or refused. Hash-causality hypotheses on the submitted transaction
+(ids are hashes of the content): its id is fresh — no row of the table carries it and no pending transaction cites it —
+and its inputs do not cite the transaction itself. (`doTx` does not look at the coinbase flag; the node never accepts a
+coinbase through `DoTx`, which is the hypothesis `hcb`.) -/
+theorem doTx_PoolInv (e : Env) (s : St) (lh : Int) (i : Nat) (hinv : PoolInv e s)
+    (hfresh : ∀ o, lookup s.U ((e.tx i).id, o) = none)
+    (hcited : ∀ j ∈ s.pool, ∀ r ∈ (e.tx j).ins, r.tx ≠ (e.tx i).id)
+    (hself : ∀ r ∈ (e.tx i).ins, r.tx ≠ (e.tx i).id)
+    (hcb : (e.tx i).coinbase = false) :
+    PoolInv e (doTx e s lh i).1 := by
+  by_cases hok : (doTx e s lh i).2 = .ok
+  · obtain ⟨hnp, hadm, hs'⟩ := XV.C03.doTx_ok e s lh i hok
+    obtain ⟨c1, c2, c3⟩ := applyTx_conserves s lh (e.tx i) hadm hinv.nodupU hfresh hcb
+    rw [hs']
+    refine ⟨c1, ?_, ?_, ?_, ?_⟩
+    · simp only [List.nodup_append, List.nodup_cons, List.not_mem_nil, not_false_eq_true, List.nodup_nil,
+        and_self, List.mem_cons, or_false, true_and]
+      exact ⟨hinv.nodupPool, fun a ha b hb => by subst hb; intro e2; exact hnp (e2 ▸ ha)⟩
+    · intro j hj
+      rcases List.mem_append.mp hj with hj | hj
+      · exact hinv.nonCoinbase j hj
+      · simp only [List.mem_cons, List.not_mem_nil, or_false] at hj; subst hj; exact hcb
+    · intro j hj r hr
+      simp only
+      rcases List.mem_append.mp hj with hj | hj
+      · exact XV.C03.spent_stays_spent s (e.tx i) (r.tx, r.off) (hcited j hj r hr) (hinv.insSpent j hj r hr)
+      · simp only [List.mem_cons, List.not_mem_nil, or_false] at hj; subst hj
+        exact XV.C03.consume s (e.tx j) hself r hr
+    · simp only
+      rw [poolFees_append, c3]
+      have := hinv.conservation
+      simp only [poolFees, List.map_cons, List.map_nil, List.sum_cons, List.sum_nil] at this ⊢
+      omega
+  · rw [XV.C05.doTx_fail_noop e s lh i hok]; exact hinv
+
+-- non-vacuity: a concrete state satisfying `PoolInv` and the hypotheses of `doTx_PoolInv`, the transaction is admitted
+example :
+    let e : Env := { txs := [(1, ⟨1, false, [⟨0, 0, "u0", 5, 0, false⟩], [⟨"u1", 3, 0⟩, ⟨"$", 2, 0⟩], [], []⟩)] }
+    let s : St := { U := [((0, 0), ⟨"u0", 5, 0⟩)], total := 5 }
+    PoolInv e s ∧ (doTx e s 0 1).2 = .ok ∧ PoolInv e (doTx e s 0 1).1 ∧ (doTx e s 0 1).1.pool = [1] := by
+  intro e s
+  have h0 : PoolInv e s := ⟨by unfold UNodup; decide, by decide, by decide, by decide, by decide⟩
+  exact ⟨h0, by decide, doTx_PoolInv e s 0 1 h0 (lookup_none_of_noid _ _ (by decide)) (by decide) (by decide) (by decide), by decide⟩
+
 end XV.C02
